@@ -6,14 +6,16 @@ import (
 	"github.com/lindb/lindb/verifharness/sim/ev"
 )
 
-// Finding of the queued-cancellation class (sigRejectedTask): workerPool.Submit returns without
-// a word when the submitter's context is done or the pool is stopped (only a counter moves).
-// pipeline.executeStage has registered the stage as pending before baseStage.Execute hands the
-// task to the pool, nobody ever completes the stage: pending never reaches zero, the completion
-// callback never fires. On a storage node: the request (whose time-out fired while a stage was
-// about to be submitted, or whose stream went away) is never answered, the pipeline and its
-// StorageExecuteContext are never released. Proposed fix: proposed_fix_pool_rejects_task_silently.diff
-// (Submit reports a rejected task to the task's panic handler = the stage's error handler).
+// Finding of the queued-cancellation class (sigRejectedTask), repaired in /repo by 74e6a91:
+// workerPool.Submit returned without a word when the submitter's context was done or the pool was
+// stopped (only a counter moved). pipeline.executeStage has registered the stage as pending before
+// baseStage.Execute hands the task to the pool, nobody ever completed the stage: pending never
+// reached zero, the completion callback never fired. On a storage node: the request (whose
+// time-out fired while a stage was about to be submitted, or whose stream went away) was never
+// answered, the pipeline and its StorageExecuteContext were never released. The fix
+// (proposed_fix_pool_rejects_task_silently.diff): Submit reports a rejected task to the task's
+// panic handler = the stage's error handler. The tests below are plain regressions; they go
+// through the runner and the oracle of the property test.
 
 func qTree(nodes ...qNode) *qSpec {
 	s := &qSpec{Force: true}
